@@ -69,11 +69,11 @@ CFG = {
                   "contains_point_body_eq_model, child_has_focus_body_eq_model, find_path_body_eq_model) - every function named in the property's anchors is now executed from "
                   "source syntax and proved equal to the model function the property theorems are about. New extractor facts pin the order of App.Run's frame step and prologue "
                   "(run_frame_order, run_prologue_order). Callers with callees: update + hitTest + containsPoint, updatePath + findPath + childHasFocus + focusWidget, handleCommand + "
-                  "focusWidget executed together from their bodies are the model functions (mouse_update_bodies_eq_model, update_path_bodies_eq_model, handle_command_bodies_eq_model). "
+                  "focusWidget executed together from their bodies are the model functions (mouse_update_bodies_eq_model, update_path_bodies_eq_model, handle_command_bodies_eq_model), and the Run loop whose frame step runs them that way is eRun too (run_all_bodies_eq_model). "
                   "c15_over_executed_bodies states ALL clauses of the property at once for the Run loop over the executed bodies (ranked oracles, any history): no error, budget never "
                   "exhausted, path = drawn chain of the widget focused now, focus notifications pair up, hover alternates with entered = hit list, every command once, and the next "
                   "event is routed capture/target/bubble over the drawn chain by the executed dispatcher.",
-    "level_note": "Proved: 106 theorems (Props/C15 31, C15Err 7, C15Gen 14, C15Body 36, witnesses 18 showing the pre-fix code violating the statements, the fixed code meeting them, and F115c). Validated by "
+    "level_note": "Proved: 108 theorems (Props/C15 31, C15Err 7, C15Gen 14, C15Body 38, witnesses 18 showing the pre-fix code violating the statements, the fixed code meeting them, and F115c). Validated by "
                   "correspondence only: that the model (incl. the error plumbing) equals vxfw.go (0 mismatches expected on ~38k quick / ~500k thorough op "
                   "lines, both streams), Go's sort.Slice stability for <= 12 children, uint16 coordinate arithmetic (proved equal to integer "
                   "arithmetic for sizes < 65536, hit_list_is_under; since round 4 the uint16 subtractions of hitTest are executed from the body: hit_test_body_eq_model). Modelled not verified: stack overflow on unbounded refocus recursion (fuel; Witness.F115c proves the budget runs out for every budget for ping-pong handlers; "
